@@ -16,8 +16,8 @@
 //!      `hasheq X Y` -> true|false       (the two recorded sequences are equal)
 //!      `log2encl X` -> enclosed      (the ESTIMATE-ORACLE HYPOTHESIS of the theorems, checked on the real
 //!                                     estimator: `x.log2_bounds()` = (lb, ub) must satisfy lb <= log2|x| <= ub;
-//!                                     log2|x| is recomputed here in f64 from the top 64 bits, with a tolerance
-//!                                     far below the f32 resolution; a failure prints the numbers)
+//!                                     log2|x| is enclosed here to 2^-137 by certified integer interval
+//!                                     arithmetic — no libm, no floats; a failure prints the numbers)
 //!      `fdecode X`  -> nan | inf <+|-> | fin <man> d:<exp>   (`FloatEncoding::decode` of a primitive float)
 //!      `implset`    -> digest of the impl headers / macro invocations of the anchored source files
 //! A pair for which the library has no impl prints `ok nopair` (the model carries the same table).
@@ -542,54 +542,143 @@ fn f_feed(ws: &[Vec<u8>]) -> String {
 }
 
 // ------------------------------------------------------------------------------ estimator hypothesis
+//
+// `log2encl`: lb <= log2|x| <= ub for the REAL f32 estimator, decided with CERTIFIED integer interval
+// arithmetic (no libm, no floating point): log2 of an integer is enclosed by bit length + KFRAC
+// fractional bits obtained by repeated squaring of a PM-bit mantissa with directed rounding (lower
+// track rounds down, upper track rounds up); the f32 bounds are decoded to exact dyadic rationals.
 
-/// log2 of a positive integer in f64 (top 64 bits; absolute error < 1e-12 for bit lengths < 2^40)
-fn log2_ubig(x: &UBig) -> f64 {
-    let l = x.bit_len();
-    if l <= 64 {
-        (u64::try_from(x).unwrap() as f64).log2()
+const KFRAC: usize = 200; // fractional bits of the enclosure (|exponent| < 2^63 costs 63 of them)
+const PM: usize = 448; // mantissa bits (each squaring doubles the relative error: 448 - 200 - 2 left)
+
+/// (lo, hi) with lo <= log2(x) * 2^KFRAC <= hi, x > 0; exact (lo = hi) when x is a power of two
+fn log2_interval(x: &UBig) -> (IBig, IBig) {
+    let l = x.bit_len() - 1;
+    let int_part = IBig::from(l) << KFRAC;
+    if x.trailing_zeros() == Some(l) {
+        return (int_part.clone(), int_part);
+    }
+    // mantissa m/2^(PM-1) in [1, 2)
+    let (mut m_lo, mut m_hi) = if l + 1 > PM {
+        let sh = l + 1 - PM;
+        let lo = x >> sh;
+        let exact = (&lo << sh) == *x;
+        let hi = if exact { lo.clone() } else { &lo + UBig::ONE };
+        (lo, hi)
     } else {
-        let top = u64::try_from(&(x >> (l - 64))).unwrap();
-        (top as f64).log2() + (l - 64) as f64
+        let m = x << (PM - 1 - l);
+        (m.clone(), m)
+    };
+    let two_pm = UBig::ONE << PM;
+    let (mut f_lo, mut f_hi) = (UBig::ZERO, UBig::ZERO);
+    for _ in 0..KFRAC {
+        // lower track: round down
+        let sq = (&m_lo * &m_lo) >> (PM - 1);
+        f_lo <<= 1;
+        if sq >= two_pm {
+            f_lo += UBig::ONE;
+            m_lo = sq >> 1;
+        } else {
+            m_lo = sq;
+        }
+        // upper track: round up
+        let full = &m_hi * &m_hi;
+        let mut sq = &full >> (PM - 1);
+        if (&sq << (PM - 1)) != full {
+            sq += UBig::ONE;
+        }
+        f_hi <<= 1;
+        if sq >= two_pm {
+            f_hi += UBig::ONE;
+            let odd = sq.bit(0);
+            m_hi = sq >> 1;
+            if odd {
+                m_hi += UBig::ONE;
+            }
+        } else {
+            m_hi = sq;
+        }
+    }
+    // the remaining factor is in [1, 2): contributes [0, 1) units of 2^-KFRAC
+    (&int_part + IBig::from(f_lo), int_part + IBig::from(f_hi) + IBig::ONE)
+}
+
+/// exact value of a finite f32 times 2^KFRAC as (numerator, shift): value = num / 2^shift
+fn f32_scaled(f: f32) -> (IBig, usize) {
+    let bits = f.to_bits();
+    let neg = bits >> 31 == 1;
+    let ex = ((bits >> 23) & 0xff) as i64;
+    let man = (bits & 0x7fffff) as u64;
+    let (m, e) = if ex == 0 { (man, -149i64) } else { (man | 0x800000, ex - 150) };
+    let m = if neg { -IBig::from(m) } else { IBig::from(m) };
+    let e = e + KFRAC as i64;
+    if e >= 0 {
+        (m << e as usize, 0)
+    } else {
+        (m, (-e) as usize)
     }
 }
 
-fn encl_check(lb: f32, ub: f32, v: Option<f64>) -> Res {
+/// v = None: x is zero (log2 = -inf)
+fn encl_check(lb: f32, ub: f32, v: Option<(IBig, IBig)>) -> Res {
     match v {
         None => {
-            // zero: log2 = -inf
             if lb == f32::NEG_INFINITY && !ub.is_nan() {
                 Ok("enclosed".into())
             } else {
                 Err(format!("violated zero lb={} ub={}", lb, ub))
             }
         }
-        Some(v) => {
-            let tol = 1e-9 + 1e-13 * v.abs();
-            let (l, u) = (lb as f64, ub as f64);
-            if l.is_nan() || u.is_nan() || l > v + tol || u < v - tol {
-                Err(format!("violated lb={:e} ub={:e} log2={:e}", l, u, v))
-            } else {
+        Some((lo, hi)) => {
+            if !lb.is_finite() || !ub.is_finite() {
+                return Err(format!("violated non-finite lb={} ub={}", lb, ub));
+            }
+            let (ln, ls) = f32_scaled(lb);
+            let (un, us) = f32_scaled(ub);
+            // lb <= log2: certain iff lb*2^K <= lo ; certainly violated iff lb*2^K > hi
+            let lb_ok = ln <= (&lo << ls);
+            let lb_bad = ln > (&hi << ls);
+            let ub_ok = un >= (&hi << us);
+            let ub_bad = un < (&lo << us);
+            if lb_bad || ub_bad {
+                Err(format!("violated lb={:e} ub={:e} log2~{}", lb, ub, f_ibig(&(lo >> (KFRAC - 40)))))
+            } else if lb_ok && ub_ok {
                 Ok("enclosed".into())
+            } else {
+                Err(format!("violated undecided lb={:e} ub={:e}", lb, ub))
             }
         }
     }
 }
 
 fn log2encl(x: &Num) -> Res {
-    fn of_int(x: &IBig) -> Option<f64> {
+    fn of_int(x: &IBig) -> Option<(IBig, IBig)> {
         if x.is_zero() {
             None
         } else {
-            Some(log2_ubig(&dashu_base::UnsignedAbs::unsigned_abs(x)))
+            Some(log2_interval(&dashu_base::UnsignedAbs::unsigned_abs(x)))
         }
     }
-    fn of_float<const B: dashu_int::Word>(a: &FB<B>) -> Result<Option<f64>, String> {
+    fn of_ratio(n: &IBig, d: &UBig) -> Option<(IBig, IBig)> {
+        of_int(n).map(|(nl, nh)| {
+            let (dl, dh) = log2_interval(d);
+            (nl - dh, nh - dl)
+        })
+    }
+    fn of_float<const B: dashu_int::Word>(a: &FB<B>) -> Result<Option<(IBig, IBig)>, String> {
         let r = a.repr();
         if r.is_infinite() {
             return Err("bad-arg log2encl infinite".into());
         }
-        Ok(of_int(r.significand()).map(|s| s + r.exponent() as f64 * (B as f64).log2()))
+        let (bl, bh) = log2_interval(&UBig::from(B));
+        let e = IBig::from(r.exponent());
+        Ok(of_int(r.significand()).map(|(sl, sh)| {
+            if r.exponent() >= 0 {
+                (sl + &e * bl, sh + &e * bh)
+            } else {
+                (sl + &e * bh, sh + &e * bl)
+            }
+        }))
     }
     match x {
         Num::U(a) => {
@@ -614,13 +703,11 @@ fn log2encl(x: &Num) -> Res {
         }
         Num::R(a) => {
             let (l, u) = a.log2_bounds();
-            let d = log2_ubig(a.denominator());
-            encl_check(l, u, of_int(a.numerator()).map(|n| n - d))
+            encl_check(l, u, of_ratio(a.numerator(), a.denominator()))
         }
         Num::X(a) => {
             let (l, u) = a.log2_bounds();
-            let d = log2_ubig(a.denominator());
-            encl_check(l, u, of_int(a.numerator()).map(|n| n - d))
+            encl_check(l, u, of_ratio(a.numerator(), a.denominator()))
         }
         _ => Err("bad-arg log2encl kind".into()),
     }
@@ -629,22 +716,43 @@ fn log2encl(x: &Num) -> Res {
 // ------------------------------------------------------------------------------ impl set (tie to source)
 
 const IMPL_SOURCES: [(&str, &str); 7] = [
-    ("integer/num_order.rs", include_str!("/repo/integer/src/third_party/num_order.rs")),
-    ("float/num_order.rs", include_str!("/repo/float/src/third_party/num_order.rs")),
-    ("rational/num_order.rs", include_str!("/repo/rational/src/third_party/num_order.rs")),
-    ("integer/cmp.rs", include_str!("/repo/integer/src/cmp.rs")),
-    ("float/cmp.rs", include_str!("/repo/float/src/cmp.rs")),
-    ("rational/cmp.rs", include_str!("/repo/rational/src/cmp.rs")),
-    ("base/sign.rs", include_str!("/repo/base/src/sign.rs")),
+    ("integer/num_order.rs", "integer/src/third_party/num_order.rs"),
+    ("float/num_order.rs", "float/src/third_party/num_order.rs"),
+    ("rational/num_order.rs", "rational/src/third_party/num_order.rs"),
+    ("integer/cmp.rs", "integer/src/cmp.rs"),
+    ("float/cmp.rs", "float/src/cmp.rs"),
+    ("rational/cmp.rs", "rational/src/cmp.rs"),
+    ("base/sign.rs", "base/src/sign.rs"),
 ];
+
+/// root of the dashu checkout this harness was built against: the `path` of the `dashu-base`
+/// dependency in the manifest it was built from (/repo, or the scratch copy of a trial run)
+fn repo_root() -> Result<String, String> {
+    let man = std::fs::read_to_string(concat!(env!("CARGO_MANIFEST_DIR"), "/Cargo.toml"))
+        .map_err(|e| format!("bad-arg implset manifest {}", e))?;
+    for line in man.lines() {
+        if line.starts_with("dashu-base") {
+            if let Some(i) = line.find("path = \"") {
+                let rest = &line[i + 8..];
+                if let Some(j) = rest.find("/base\"") {
+                    return Ok(rest[..j].to_string());
+                }
+            }
+        }
+    }
+    Err("bad-arg implset no-dashu-base-path".into())
+}
 
 /// the impl headers (`impl … NumOrd<…>/NumHash/AbsOrd/AbsEq … for …`, also inside macro bodies) and
 /// the top-level macro invocations of each anchored file, as `file:count:fnv64`.  The dispatch tables
 /// of this harness and of the model were transcribed from exactly this set; if it changes the model
 /// prints another digest and the tables must be revisited.
-fn implset() -> String {
+fn implset() -> Res {
+    let root = repo_root()?;
     let mut out = vec![];
-    for (name, src) in IMPL_SOURCES.iter() {
+    for (name, rel) in IMPL_SOURCES.iter() {
+        let src = std::fs::read_to_string(format!("{}/{}", root, rel))
+            .map_err(|e| format!("bad-arg implset {} {}", rel, e))?;
         let mut n = 0usize;
         let mut h: u64 = 0xcbf29ce484222325;
         for line in src.lines() {
@@ -668,7 +776,7 @@ fn implset() -> String {
         }
         out.push(format!("{}:{}:{:016x}", name, n, h));
     }
-    out.join(" ")
+    Ok(out.join(" "))
 }
 
 /// which way the real log2-bound filter goes for a pair that uses it (annotation only, not compared)
@@ -745,7 +853,7 @@ pub fn dispatch(op: &str, args: &[&str]) -> Option<Res> {
                 Ok(f_feed(&numhash_all(&x)?))
             }
             "log2encl" => log2encl(&p_num(arg(args, 0)?)?),
-            "implset" => Ok(implset()),
+            "implset" => implset(),
             "fdecode" => {
                 use dashu_base::FloatEncoding;
                 use std::num::FpCategory;
